@@ -301,6 +301,18 @@ class TreeGen:
     def __init__(self, rng):
         self.r = rng
         self.oid = 0
+        self.pings = []          # numbers of the PING tokens inserted, in stream order
+
+    def ping(self, p=0.25):
+        """maybe a PING (recorded) or a PONG (ignored by the receiver) to put between two tokens"""
+        r = self.r
+        if r.random() >= p:
+            return b""
+        if r.random() < 0.2:
+            return tok(PONG, r.choice([0, 3, 2 ** 40]))
+        n = r.choice([0, 1, 5, 300, 2 ** 33, len(self.pings) + 1000])
+        self.pings.append(n)
+        return tok(PING, n)
 
     def prim(self):
         r = self.r
@@ -326,8 +338,7 @@ class TreeGen:
             b, v = self.good(depth - 1)
             out += b
             items.append(v)
-            if r.random() < 0.1:
-                out += tok(PING, r.choice([0, 5])) if r.random() < 0.5 else tok(PONG, 3)
+            out += self.ping(0.15)
         out += tok(CLOSE, oid)
         return out, ["L", "L", items]
 
@@ -345,22 +356,28 @@ class TreeGen:
         oid = self.oid
         self.oid += 1
         kind = r.choice(["C0", "C1", "X", "T", "F", "Z", "I+s", "S0+s", "N0+c", "longindex", "abort", "intindex"])
-        g1, g2 = self.good(1)[0], self.good(1)[0]
+        P = lambda: self.ping(0.4)        # PINGs must be answered in every state, also while discarding
+        G = lambda: self.good(1)[0]       # evaluated in stream order, so that recorded pings match the stream
         if kind in ("C0", "X", "T", "F", "Z"):
-            return tok(OPEN, oid) + S(kind.encode()) + g1 + g2 + tok(CLOSE, oid)
-        if kind == "C1":
-            return tok(OPEN, oid) + S(b"C1") + g1 + g2 + g1 + tok(CLOSE, oid)
-        if kind == "I+s":
-            return tok(OPEN, oid) + S(b"I") + enc_int(4) + S(b"no") + enc_int(5) + tok(CLOSE, oid)
-        if kind == "S0+s":
-            return tok(OPEN, oid) + S(b"S0") + enc_int(4) + S(b"toolong") + g2 + tok(CLOSE, oid)
-        if kind == "N0+c":
-            return tok(OPEN, oid) + S(b"N0") + enc_int(4) + tok(CLOSE, oid)
-        if kind == "longindex":
-            return tok(OPEN, oid) + S(b"LLLLL") + g1 + tok(CLOSE, oid)
-        if kind == "intindex":
-            return tok(OPEN, oid) + enc_int(5) + g1 + tok(CLOSE, oid)
-        return tok(OPEN, oid) + S(b"L") + g1 + tok(ABORT, oid) + g2 + tok(CLOSE, oid)
+            parts = [tok(OPEN, oid), S(kind.encode()), G, P, G, P]
+        elif kind == "C1":
+            parts = [tok(OPEN, oid), S(b"C1"), G, P, G, P, G, P]
+        elif kind == "I+s":
+            parts = [tok(OPEN, oid), S(b"I"), enc_int(4), S(b"no"), P, enc_int(5), P]
+        elif kind == "S0+s":
+            parts = [tok(OPEN, oid), S(b"S0"), enc_int(4), S(b"toolong"), P, G, P]
+        elif kind == "N0+c":
+            parts = [tok(OPEN, oid), S(b"N0"), enc_int(4), P, P]
+        elif kind == "longindex":
+            parts = [tok(OPEN, oid), S(b"LLLLL"), P, G, P]
+        elif kind == "intindex":
+            parts = [tok(OPEN, oid), enc_int(5), P, G, P]
+        else:
+            parts = [tok(OPEN, oid), S(b"L"), G, P, tok(ABORT, oid), G, P]
+        out = b""
+        for x in parts:
+            out += x() if callable(x) else x
+        return out + tok(CLOSE, oid)
 
 
 def spec_oracle(ctx, I):
@@ -385,8 +402,14 @@ def spec_oracle(ctx, I):
         for cs in chunkings(r, len(stream)):
             ev, snaps, esc = I.run_policy(stream, cs, "any")
             got = [e for e in ev if e[0] in ("deliver", "violation", "error-sent", "lose")]
+            pongs = [e[1] for e in ev if e[0] == "pong"]
             ctx.case(["spec", list(stream), cs], nontrivial=True)
             ctx.hist("kind", "spec-resync")
+            if not esc and pongs != tg.pings:
+                ctx.fail("oracle/ping-not-answered", "every PING must be answered by one PONG with the same number, in order, in every receiver "
+                         "state (also while a rejected object is being discarded): PINGs %r, PONGs written %r; stream=%r chunks=%r"
+                         % (tg.pings, pongs, list(stream), cs[:30]), replay=dict(stream=list(stream), chunks=cs, rootmode="any", pings=tg.pings, pongs=pongs))
+                break
             if esc or got != expect or (snaps and (snaps[-1]["discard"] != 0 or snaps[-1]["depth"] != 1 or snaps[-1]["buf"] != 0)):
                 ctx.fail("oracle/spec-deviation", "objects delivered / violations reported differ from the specification: expected %r, got %r (escaped %r, final %r); stream=%r chunks=%r"
                          % (expect, got, esc, snaps[-1] if snaps else None, list(stream), cs[:30]),
